@@ -177,11 +177,13 @@ func (q *querier) resolveRefQuery(ctx context.Context, repo vcs.Repository, majo
 	}
 
 	var version *vcs.Version
+ancestors:
 	for ancestor := range revision.History() {
 		for _, v := range slices.Backward(versions) {
 			if v.Version.Path == query.path && majorVersionMatch(majorVersion, v.Version.Version) && v.RevisionID == ancestor.ID() {
+				// The history is walked from the revision towards the root: the first match is the closest one.
 				version = v
-				break
+				break ancestors
 			}
 		}
 	}
